@@ -14,6 +14,9 @@ func Now() time.Time {
 	if x == nil {
 		return time.Now()
 	}
+	if !x.Aborting() {
+		x.Absorb(uint64(x.Now))
+	}
 	return x.WallNow()
 }
 
